@@ -28,7 +28,7 @@ class OsuToQua(ConvertBase):
             dict(offset="offset", column="column", length="length"),
         )
         qua.bpms = cls.cast(osu.bpms, QuaBpmList, dict(offset="offset", bpm="bpm"))
-        qua.sv = cls.cast(
+        qua.svs = cls.cast(
             osu.svs, QuaSvList, dict(offset="offset", multiplier="multiplier")
         )
 
